@@ -17,7 +17,7 @@ const propC14 = "C14"
 var DevCommands = []string{"migrate-validate", "migrate-diff", "migrate-lint", "schema-apply-dir", "schema-apply-sql", "schema-diff-sql", "schema-inspect-sql", "schema-apply-hcl-dev"}
 
 // DevStates are the initial states of the dev database.
-var DevStates = []string{"no-file", "empty-file", "user-tables", "leftovers", "view-only"}
+var DevStates = []string{"no-file", "empty-file", "user-tables", "leftovers", "view-only", "virtual-tables"}
 
 func devMaster(d *observe.Dump) string {
 	m := append([]string(nil), d.Master...)
@@ -174,7 +174,7 @@ func C14(r *simkit.Run) {
 	}
 	// Initial dev state.
 	switch state {
-	case "empty-file", "user-tables", "view-only":
+	case "empty-file", "user-tables", "view-only", "virtual-tables":
 		db, err := observe.Open(w.DevDB)
 		if err != nil {
 			simkit.Harnessf("open dev: %v", err)
@@ -185,6 +185,9 @@ func C14(r *simkit.Run) {
 			stmts = "CREATE TABLE precious (id int, v text); INSERT INTO precious VALUES (1,'a'),(2,'b'); CREATE INDEX precious_v ON precious (v)"
 		case "view-only":
 			stmts = "CREATE VIEW only_view AS SELECT 1 AS one"
+		case "virtual-tables":
+			// Full-text and R*Tree tables: virtual tables plus the shadow tables that hold their rows.
+			stmts = "CREATE VIRTUAL TABLE docs USING fts4(body); INSERT INTO docs (body) VALUES ('precious text'); CREATE VIRTUAL TABLE boxes USING rtree(id, minx, maxx); INSERT INTO boxes VALUES (1, 0.0, 1.0)"
 		}
 		if _, err := db.Exec(stmts); err != nil {
 			simkit.Harnessf("dev init: %v", err)
